@@ -1,9 +1,26 @@
 (* C02 -- property theorems only.  Proofs live in C02/Proofs*.v. *)
 From Coq Require Import NArith List.
 From DV Require Import Base.Outcome Base.Bytes Base.Names Base.PName C02.Gen C02.Model
-  C02.ProofsBasic C02.ProofsRun C02.ProofsName C02.ProofsComp C02.ProofsStatic C02.ProofsHash C02.ProofsTop.
+  C02.ProofsBasic C02.ProofsRun C02.ProofsName C02.ProofsComp C02.ProofsStatic C02.ProofsHash C02.ProofsTop
+  C02.ProofsLayout C02.ProofsRead C02.ProofsWrite C02.ProofsBuild.
 Import ListNotations.
 Local Open Scope N_scope.
+
+(* Any message assembled by any finite sequence of builder operations
+   (question / record / OPT pushes with well-formed names and field values,
+   section conversions in both directions, rewinds, push limits; pushes that
+   fail for lack of space, because of the limit or a full counter), on every
+   target (unbounded, fixed capacity, stream) and with every compressor (none,
+   static, tree, hash), reads back as exactly the items whose push succeeded,
+   in order and in the right sections, with header counts equal to the numbers
+   of successful pushes and nothing left over (names up to ASCII case, which
+   is DNS name equality). *)
+Theorem C02_build_parse : forall c ops s0 s a ws,
+  init c = Some s0 -> Forall wf_op ops ->
+  run_acc c s0 acc0 ops = (s, a, ws) -> all_alive ws ->
+  exists a', rd_message (msg_of s) a = Ok a' /\ acc_eqb a' a = true.
+Proof. exact build_parse. Qed.
+Print Assumptions C02_build_parse.
 
 (* A failed push (target full, push limit, count overflow) leaves the whole
    builder state - octets, counts, stream length octets, compressor tables,
